@@ -4,6 +4,7 @@ go 1.21
 
 require (
 	github.com/anishathalye/porcupine v1.3.0
+	github.com/cenkalti/backoff/v4 v4.1.3
 	github.com/cenkalti/rpc2 v0.0.0-20210604223624-c1acbc6ec984
 	github.com/go-logr/logr v1.2.2
 	github.com/go-logr/stdr v1.2.2
@@ -13,7 +14,6 @@ require (
 
 require (
 	github.com/beorn7/perks v1.0.1 // indirect
-	github.com/cenkalti/backoff/v4 v4.1.3 // indirect
 	github.com/cenkalti/hub v1.0.1 // indirect
 	github.com/cespare/xxhash/v2 v2.1.2 // indirect
 	github.com/davecgh/go-spew v1.1.1 // indirect
